@@ -221,7 +221,11 @@ def run(case, sim):
             # clock may have jumped between the client signing and the relay checking
             try:
                 created = m[1]["created_at"]
-                ages = [w0 - created for w0 in (fr.get("wall_deliver"), fr.get("wall_done")) if w0 is not None]
+                walls = [w0 for w0 in (fr.get("wall_deliver"), fr.get("wall_done")) if w0 is not None]
+                # ... and every value the wall clock jumped to while the frame was being handled
+                hi_t = fr["t_done"] if fr.get("t_done") is not None else 10 ** 12
+                walls += [wl for st, wl in getattr(w, "clock_jumps", []) if fr["t_deliver"] <= st <= hi_t]
+                ages = [w0 - created for w0 in walls]
                 if kind in ("valid", "time", "extra", "dup-relay") and ages:
                     if all(abs(a) < 598 for a in ages):
                         exp = "valid"
